@@ -295,7 +295,7 @@ def ob_index_grouping(ctx, res):
 
 
 # ---------------------------------------------------------------------------------------------------------------------
-# C18-B1: the bisection in index_chroms::do_index
+# C18-I1: the bisection in index_chroms::do_index
 
 
 def _sq(t):
@@ -359,7 +359,7 @@ def _match_of(arm):
 
 
 def ob_bisection(ctx, res):
-    """C18-B1: every probe outcome of do_index either records the probed line and recurses on both sides or narrows the interval"""
+    """C18-I1: every probe outcome of do_index either records the probed line and recurses on both sides or narrows the interval"""
     fn = ctx.ast.fn(IX, "do_index")
     stmts = fn.body["stmts"]
     recs = [c for c in walk_no_nested_fn(fn.body) if c.k == "call" and up(c["func"]) == "do_index"]
